@@ -72,11 +72,18 @@ func init() {
 			"Oracle on the decrypted *bytes*, read with ref/boxwalk + ref/cenc: samples (bytes via moof start + data_offset, size, duration, flags, cto, decode time) = generator ground truth; sample entry type restored and no sinf left; every non-protection box of the same-mode re-encode of the clear input present, in order, byte-identical (trun data_offset masked and checked through the sample bytes; container size fields excluded; top-level sidx excluded). " +
 			"Case list: the 88 pinned cases of C07, 5400 (quick) / 250000 (thorough) random cases, 60 third-party cases, 3000 (quick) / 60000 (thorough) multi-track cases. Third-party cases (appended): the repo's cenc/cbcs/cbcs-audio/PIFF files decrypted with the test key, a wrong key and the zero key by library (3 variants) and tool: per track and fragment sample count/size/duration/cto/decode time unchanged, and the sample bytes equal the reference cipher's decryption with that key. " +
 			"Multi-track cases (appended after the third-party cases; 3000 quick / 60000 thorough): 2 (3/4) or 3 (1/4) independently generated single-track inputs (mostly video+audio in either order, 1/8 any codecs; own scheme, IV, KID and pssh choice per track, one shared key; 1/8: one of the tracks stays unencrypted) are encrypted one by one (library reader|slice reader, 1/6 mp4ff-encrypt) and MERGED on the byte level (gen/cencgen.Merge on the editable tree of the independent walker) into one file: one moov with the trak boxes in a PRNG order, track ids rewritten to a permutation of 1..n or to distinct values of {1,2,3,4,5,7,16,100,255,256,1000,65535,65536,2^31-1,2^31,2^32-2}, one mvex (before or after the traks) whose trex boxes are in an independently drawn order, all pssh boxes; fragments are single-traf fragments alternating between the tracks, fragments with one traf per track (traf order and the order of the tracks' sample data in mdat drawn independently; every traf keeps its own senc/saiz/saio, the saio offset is recomputed to the moof-relative position of that traf's first senc entry, every trun data_offset recomputed, tfhd default-base-is-moof), or a random mix; for 2/3 of the tracks tfhd default duration/size/flags that are equal in all fragments of the track are moved into its trex, so that reading the samples needs the right trex. The same merge of the clear re-encodes is the baseline input. The merged encrypted file is decrypted as one file (DecryptInit + DecryptSegment, reader|slice reader, segment|box-tree encode, combined or separate init; 1/5 mp4ff-decrypt, combined or -init) and judged per track exactly like a single-track case: every traf of every fragment = the generated samples of the track fragment the plan put there (bytes, size, duration, flags, cto, decode time), every trak's sample entry type restored without sinf, no pssh left in moov, all non-protection boxes of the merged clear baseline present, in order and byte-identical, output decodable. Before judging, the harness reads its own merged files with ref/cenc (clear merge carries the generated samples; encrypted merge: senc of every traf tiles with the IV size of its own track and saio points at it), a failure there is inconclusive (generator), never a violation. Keys multi/<scheme set>/<clause> and multi/<scheme|clear>/<avc|hevc|audio>/<clause>; evidence: multi_trak_vs_trex_order (ranks of the track ids in trak and trex order), multi_fragment, multi_fragment_shape, multi_track_ids, multi_traf_schemes_in_one_moof, multi_per_sample_iv_sizes_in_trak_order, multi_tfhd_default_moved_to_trex, counters multi_*. " +
+			"Round-5 input/history extensions (single-track random cases and every track of a multi-track case; evidence clear_*, *key_rotation*, pssh_boxes_to_initprotect, *encrypted_moov_pssh_layout): " +
+			"(a) moov extras: with chance 1/3 (multi-track: 1/4 per track) the moov of the CLEAR init gets 1..4 extra children by a byte-level rewrite (gen/cencgen.AddMoovExtras): left-over pssh (v0/v1), unknown four-character code (abcd|zzzz|vndr), uuid with a random extended type, free, udta (empty or with an unknown child), each at the end of moov (3/4), right behind mvhd or in front of the last trak/mvex; InitProtect is given 0, 1 or 2 pssh boxes, which it appends behind them, so the pssh boxes of the encrypted moov are often not neighbours (pssh vndr pssh); the merge of a multi-track case keeps the first trak's extra boxes and pssh boxes in their order; every non-pssh extra box must survive decryption byte-identical and in place, every pssh must be gone from moov. " +
+			"(b) trex-only defaults: with chance 1/2 (multi-track: 1/3 per track) the clear input is rewritten on the byte level BEFORE encryption (gen/cencgen.TrexOnlyDefaults) so that sample duration/size/flags are signalled by the trex defaults alone: a tfhd default present with one value in every fragment is moved to trex, and (1/2) a field whose effective value is equal for all samples of the track is taken out of every trun and tfhd and written to trex (flags only without first_sample_flags); trun data_offset reduced by the bytes the moof lost. Encryption (library and mp4ff-encrypt, combined or with separate init) must then find the samples through the trex of InitProtectData. The generated sample list stays the ground truth; the rewritten input is first re-read with ref/cenc (VerifyClear: sample entry, per-sample size/duration/flags/cto/decode time/bytes = generated), a failure is inconclusive (generator). " +
+			"(c) key rotation: with chance 1/3 of the cases where both sides are the library and the file has at least 2 fragments, fragment g (0-based, file order; multi-track: fragment g of the MERGED file, the plan being drawn before the tracks are encrypted so that all trafs of one merged fragment share a key) is encrypted with EncryptFragment(key number g/period) and decrypted with that same key, period 1|2 (multi-track 1|2|3), key 0 = the case key, key k = SHA-256(case key||\"rot\"||uint32 k)[:16]; the decryption side uses ONE DecryptInfo for the whole file: DecryptSegment(segment, di, key) where all fragments of the decoded segment share a key, otherwise DecryptFragment(fragment, di, key) fragment by fragment. The tool paths take one key and never rotate. The oracle needs no key (ground truth = generated clear samples). " +
 			"Non-trivial = the encryption produced at least one sample with a protected range (read from the encrypted bytes) and the decryption ran; distinct_nontrivial counts distinct (clear file, configuration, path) hashes (multi-track: merged encrypted file, key, path); evaluations counts compared samples.",
 		Assumptions: []string{
 			"a refusal to encrypt is accepted only where documented: ExtractInitProtectData/-init with avc3/hev1, more than one trun per traf, and samples whose auxiliary information cannot be described by the 8-bit saiz size",
 			"encryption side always encodes in segment mode (EncryptFragment does not maintain trun.data_offset; Fragment.Encode recomputes it); box-tree mode is exercised on the decryption side",
 			"third-party sample bytes: reference cipher per ISO/IEC 23001-7 with the tenc/senc values as written (PIFF: uuid tenc/senc, AES-CTR)",
+			"the key is a parameter of every EncryptFragment / DecryptSegment / DecryptFragment call and DecryptInfo is documented as what DecryptInit returns for the init segment, so decrypting each fragment with the key it was encrypted with through one DecryptInfo is legal API use ('decrypting with the same key' is read per call)",
+			"a pssh box that the CLEAR input already carries in moov (or moof) is protection signalling: it may be removed by decryption and is excluded from the identity clause; every other box of the clear moov (unknown 4cc, uuid, free, udta) must be kept",
+			"sample size/duration/flags signalled only by trex defaults is legal ISO/IEC 14496-12 (8.8.3, 8.8.7, 8.8.8) although mp4ff's writer never produces it; such inputs are made by a byte-level rewrite whose result is verified against the generated sample list with the reference readers before use",
 			"multi-track: the library refuses to encrypt a multi-track file (InitProtect: only one track), so the multi-track encrypted input is assembled by the harness from single-track encryptions; all tracks of one file share the key because DecryptSegment takes one key; a track left in the clear must come out unchanged",
 		},
 		Setup:      setup,
@@ -101,6 +108,15 @@ func init() {
 			}
 			if a.Counters["multi_trex_order_differs_from_trak_order"] == 0 || a.Counters["multi_fragments_with_several_trafs"] == 0 {
 				a.Note("multi-track cases: trex order never differed from trak order (%d) or no fragment had several trafs (%d)", a.Counters["multi_trex_order_differs_from_trak_order"], a.Counters["multi_fragments_with_several_trafs"])
+			}
+			if a.Counters["key_rotation_round_trips_with_key_change_on_one_decryptinfo"]+a.Counters["multi_key_rotation_round_trips_with_key_change_on_one_decryptinfo"] == 0 {
+				a.Note("no round trip changed the key between two calls on one DecryptInfo (key rotation never exercised)")
+			}
+			if a.Counters["clear_inputs_with_sample_size_from_trex_only"] == 0 {
+				a.Note("no clear input had its sample size signalled by the trex default alone")
+			}
+			if a.Counters["encrypted_moov_with_pssh_boxes_separated_by_another_box"] == 0 {
+				a.Note("no encrypted moov had a non-pssh box between two pssh boxes")
 			}
 			if a.Counters["thirdparty_decryptions"] == 0 {
 				a.Note("no third-party encrypted file was decrypted")
@@ -311,10 +327,10 @@ func run(c *runner.Ctx, idx int) {
 	}
 	x.encOut = enc
 	protected := x.hasProtectedRange(enc)
-	if separate {
-		c.Seen("encrypted_moov_pssh_layout", cencgen.PsshNeighbourhood(enc.Init))
-	} else {
-		c.Seen("encrypted_moov_pssh_layout", cencgen.PsshNeighbourhood(enc.Media))
+	lay := cencgen.PsshNeighbourhood(enc.File())
+	c.Seen("encrypted_moov_pssh_layout", lay)
+	if strings.Contains(lay, "separated") {
+		c.Count("encrypted_moov_with_pssh_boxes_separated_by_another_box", 1)
 	}
 
 	// ---- decrypt ----
